@@ -1000,7 +1000,7 @@ fn generate(sink: &mut Sink, rng: &mut Rng, n: u64, thorough: bool) {
         let mut notes = vec![];
         match rng.below(20) {
             // clean round trips through payload_from_args
-            0..=4 => {
+            0..=4 | 9 => {
                 let big = rng.chance(1, 12);
                 let vals = gen_vals(rng, if thorough { 8 } else { 5 }, big, &mut notes);
                 let i = from_vals(rng, &vals, be, notes);
@@ -1046,11 +1046,11 @@ fn generate(sink: &mut Sink, rng: &mut Rng, n: u64, thorough: bool) {
                 produced += 1;
             }
             // truncation: a few cuts of a small clean list
-            8..=9 => {
+            8 => {
                 let vals = gen_vals(rng, 4, false, &mut notes);
                 let i0 = from_vals(rng, &vals, be, notes);
                 let len = field_positions(&vals, be).last().map(|f| f.1.last().unwrap().1).unwrap_or(0);
-                let cuts: Vec<u64> = if len <= 14 { (0..=len as u64).collect() } else { (0..6).map(|_| rng.below(len as u64 + 1)).collect() };
+                let cuts: Vec<u64> = if len <= 12 { (0..=len as u64).collect() } else { (0..6).map(|_| rng.below(len as u64 + 1)).collect() };
                 for k in cuts {
                     let mut i = i0.clone();
                     i.cut = Some(k);
